@@ -1,0 +1,66 @@
+//go:build verif
+
+// Machine-checked contracts for package strategy/volume (read by /verif/govc; comment-only).
+// C05: one action per snapshot, Hold through the warm-up w of each strategy (w is written out per strategy).
+
+package volume
+
+//@ func ChaikinMoneyFlowStrategy.Compute
+//@ requires c.ChaikinMoneyFlow.Sum.Period >= 1 && consumed(snapshots) == 0
+//@ ensures[C05] "len" len(snapshots) >= (c.ChaikinMoneyFlow.IdlePeriod()) ==> len(result) == len(snapshots)
+//@ ensures[C05] "len-short" len(result) >= len(snapshots)
+//@ ensures[C05] "warmup-hold" forall kk :: 0 <= kk && kk < min((c.ChaikinMoneyFlow.IdlePeriod()), len(result)) ==> result[kk] == 0
+//@ ensures[C05] "short-hold" len(snapshots) < (c.ChaikinMoneyFlow.IdlePeriod()) ==> (forall kk :: 0 <= kk && kk < len(result) ==> result[kk] == 0)
+//@ ensures[C05] "range" forall kk :: 0 <= kk && kk < len(result) ==> 0 - 1 <= result[kk] && result[kk] <= 1
+//@ ensures[C03] consumed(snapshots) == len(snapshots) && closed(result)
+//@ ensures[C04] forall kk :: 0 <= kk && kk < len(result) ==> hor(result, kk) <= hor(snapshots, kk)
+
+//@ func EaseOfMovementStrategy.Compute
+//@ requires e.EaseOfMovement.Sma.Period >= 1 && consumed(snapshots) == 0
+//@ ensures[C05] "len" len(snapshots) >= (e.EaseOfMovement.IdlePeriod()) ==> len(result) == len(snapshots)
+//@ ensures[C05] "len-short" len(result) >= len(snapshots)
+//@ ensures[C05] "warmup-hold" forall kk :: 0 <= kk && kk < min((e.EaseOfMovement.IdlePeriod()), len(result)) ==> result[kk] == 0
+//@ ensures[C05] "short-hold" len(snapshots) < (e.EaseOfMovement.IdlePeriod()) ==> (forall kk :: 0 <= kk && kk < len(result) ==> result[kk] == 0)
+//@ ensures[C05] "range" forall kk :: 0 <= kk && kk < len(result) ==> 0 - 1 <= result[kk] && result[kk] <= 1
+//@ ensures[C03] consumed(snapshots) == len(snapshots) && closed(result)
+//@ ensures[C04] forall kk :: 0 <= kk && kk < len(result) ==> hor(result, kk) <= hor(snapshots, kk)
+
+//@ func ForceIndexStrategy.Compute
+//@ requires f.ForceIndex.Ema.Period >= 1 && consumed(snapshots) == 0
+//@ ensures[C05] "len" len(snapshots) >= (f.ForceIndex.IdlePeriod()) ==> len(result) == len(snapshots)
+//@ ensures[C05] "len-short" len(result) >= len(snapshots)
+//@ ensures[C05] "warmup-hold" forall kk :: 0 <= kk && kk < min((f.ForceIndex.IdlePeriod()), len(result)) ==> result[kk] == 0
+//@ ensures[C05] "short-hold" len(snapshots) < (f.ForceIndex.IdlePeriod()) ==> (forall kk :: 0 <= kk && kk < len(result) ==> result[kk] == 0)
+//@ ensures[C05] "range" forall kk :: 0 <= kk && kk < len(result) ==> 0 - 1 <= result[kk] && result[kk] <= 1
+//@ ensures[C03] consumed(snapshots) == len(snapshots) && closed(result)
+//@ ensures[C04] forall kk :: 0 <= kk && kk < len(result) ==> hor(result, kk) <= hor(snapshots, kk)
+
+//@ func MoneyFlowIndexStrategy.Compute
+//@ requires m.MoneyFlowIndex.Sum.Period >= 1 && consumed(snapshots) == 0
+//@ ensures[C05] "len" len(snapshots) >= (m.MoneyFlowIndex.IdlePeriod()) ==> len(result) == len(snapshots)
+//@ ensures[C05] "len-short" len(result) >= len(snapshots)
+//@ ensures[C05] "warmup-hold" forall kk :: 0 <= kk && kk < min((m.MoneyFlowIndex.IdlePeriod()), len(result)) ==> result[kk] == 0
+//@ ensures[C05] "short-hold" len(snapshots) < (m.MoneyFlowIndex.IdlePeriod()) ==> (forall kk :: 0 <= kk && kk < len(result) ==> result[kk] == 0)
+//@ ensures[C05] "range" forall kk :: 0 <= kk && kk < len(result) ==> 0 - 1 <= result[kk] && result[kk] <= 1
+//@ ensures[C03] consumed(snapshots) == len(snapshots) && closed(result)
+//@ ensures[C04] forall kk :: 0 <= kk && kk < len(result) ==> hor(result, kk) <= hor(snapshots, kk)
+
+//@ func NegativeVolumeIndexStrategy.Compute
+//@ requires n.NegativeVolumeIndexEma.Period >= 1 && consumed(snapshots) == 0
+//@ ensures[C05] "len" len(snapshots) >= (n.NegativeVolumeIndex.IdlePeriod() + n.NegativeVolumeIndexEma.IdlePeriod()) ==> len(result) == len(snapshots)
+//@ ensures[C05] "len-short" len(result) >= len(snapshots)
+//@ ensures[C05] "warmup-hold" forall kk :: 0 <= kk && kk < min((n.NegativeVolumeIndex.IdlePeriod() + n.NegativeVolumeIndexEma.IdlePeriod()), len(result)) ==> result[kk] == 0
+//@ ensures[C05] "short-hold" len(snapshots) < (n.NegativeVolumeIndex.IdlePeriod() + n.NegativeVolumeIndexEma.IdlePeriod()) ==> (forall kk :: 0 <= kk && kk < len(result) ==> result[kk] == 0)
+//@ ensures[C05] "range" forall kk :: 0 <= kk && kk < len(result) ==> 0 - 1 <= result[kk] && result[kk] <= 1
+//@ ensures[C03] consumed(snapshots) == len(snapshots) && closed(result)
+//@ ensures[C04] forall kk :: 0 <= kk && kk < len(result) ==> hor(result, kk) <= hor(snapshots, kk)
+
+//@ func WeightedAveragePriceStrategy.Compute
+//@ requires v.WeightedAveragePrice.Sum.Period >= 1 && consumed(snapshots) == 0
+//@ ensures[C05] "len" len(snapshots) >= (v.WeightedAveragePrice.IdlePeriod()) ==> len(result) == len(snapshots)
+//@ ensures[C05] "len-short" len(result) >= len(snapshots)
+//@ ensures[C05] "warmup-hold" forall kk :: 0 <= kk && kk < min((v.WeightedAveragePrice.IdlePeriod()), len(result)) ==> result[kk] == 0
+//@ ensures[C05] "short-hold" len(snapshots) < (v.WeightedAveragePrice.IdlePeriod()) ==> (forall kk :: 0 <= kk && kk < len(result) ==> result[kk] == 0)
+//@ ensures[C05] "range" forall kk :: 0 <= kk && kk < len(result) ==> 0 - 1 <= result[kk] && result[kk] <= 1
+//@ ensures[C03] consumed(snapshots) == len(snapshots) && closed(result)
+//@ ensures[C04] forall kk :: 0 <= kk && kk < len(result) ==> hor(result, kk) <= hor(snapshots, kk)
